@@ -20,7 +20,10 @@ CLASSES = gc.CLASSES
 
 
 def _dec(r):
-    return 10.0**-r
+    """one unit of the last stored decimal, with float fuzz: a relation between fields that are each rounded
+    half-to-even can be off by exactly one unit (7.25 -> 7.2, 8.25 -> 8.2, 7.75 -> 7.8), and 7.8 - 7.7 is
+    0.10000000000000053 in binary"""
+    return 10.0**-r * (1 + 1e-9) + 1e-12
 
 
 def _rounded(x, r):
